@@ -1465,7 +1465,7 @@ class ClientStreamStack(Stack):
         except ValueError as ex:
             emsg = "{}: Error parsing raw.\n{}\n{}\n".format(self.name, raw, ex)
             console.terse(emsg)
-            self.incState("pkt_parse_error")
+            self.incStat("pkt_parse_error")
             return None
         return packet
 
@@ -1901,7 +1901,7 @@ class GramStack(Stack):
         except ValueError as ex:
             emsg = "{}: Error packing pkt.\n{}\n{}\n".format(self.name, pkt, ex)
             console.terse(emsg)
-            self.incState("pkt_pack_error")
+            self.incStat("pkt_pack_error")
         else:
             self.txPkts.append((pkt, ha))
 
@@ -1930,7 +1930,7 @@ class GramStack(Stack):
         except ValueError as ex:
             emsg = "{}: Error parsing raw.\n{}\n{}\n".format(self.name, raw, ex)
             console.terse(emsg)
-            self.incState("pkt_parse_error")
+            self.incStat("pkt_parse_error")
             return None
         return packet
 
@@ -2091,7 +2091,7 @@ class UdpStack(GramStack, RemoteStack, IpStack):
         except ValueError as ex:
             emsg = "{}: Error packing pkt.\n{}\n{}\n".format(self.name, pkt, ex)
             console.terse(emsg)
-            self.incState("pkt_pack_error")
+            self.incStat("pkt_pack_error")
         else:
             self.txPkts.append((pkt, ha))
 
